@@ -1914,6 +1914,130 @@ theorem checkValidPi_greedy (m : MDP) (hA : 0 < m.A) (q : Mat) (h : checkValidPi
     · simp [greedyPolicy, mkMat, Mat.get, Array.getD, hs, ha]
   · simp [greedyPolicy, mkMat, Mat.get, Array.getD, hs]
 
+/-! ## the tolerance run stops by tolerance when the horizon is long enough -/
+
+theorem viLoop_succ_right (m : MDP) (rep : Rep) (ir : Mat) (useTol : Bool) (tol : Rat) :
+    ∀ (fuel : Nat) (st : VIState), viLoop m rep ir useTol tol (fuel+1) st = viLoop m rep ir useTol tol 1 (viLoop m rep ir useTol tol fuel st) := by
+  intro fuel
+  induction fuel with
+  | zero => intro st; rfl
+  | succ fuel ih =>
+    intro st
+    by_cases hstop : (useTol && !(decide (st.variation > tol))) = true
+    · have e : ∀ n, viLoop m rep ir useTol tol (n+1) st = st := by
+        intro n; conv => lhs; unfold viLoop
+        simp only [hstop, if_true]
+      rw [e (fuel+1), e fuel, e 0]
+    · have e : ∀ n, viLoop m rep ir useTol tol (n+1) st = viLoop m rep ir useTol tol n (viStep m rep ir useTol st) := by
+        intro n; conv => lhs; unfold viLoop
+        simp only [hstop, Bool.false_eq_true, if_false]
+      rw [e (fuel+1), e fuel, ih]
+
+theorem maxAbsDiff_congr (n : Nat) (a b c : Nat → Rat) (h : ∀ s, s < n → b s = c s) (hn : 0 < n) :
+    maxAbsDiff n a b = maxAbsDiff n a c := by
+  unfold maxAbsDiff
+  apply maxTo_congr
+  intro i hi
+  rw [h i (by omega)]
+
+theorem maxAbsDiff_congr2 (n : Nat) (a b c d : Nat → Rat) (h1 : ∀ s, s < n → a s = c s) (h2 : ∀ s, s < n → b s = d s) (hn : 0 < n) :
+    maxAbsDiff n a b = maxAbsDiff n c d := by
+  unfold maxAbsDiff
+  apply maxTo_congr
+  intro i hi
+  rw [h1 i (by omega), h2 i (by omega)]
+
+/-- exact bookkeeping of the tolerance loop from the default start: the state after t passes holds `optH t`, and for t ≥ 1 the
+    variation is ‖optH t − optH (t−1)‖∞ -/
+def VIExact (m : MDP) (st : VIState) : Prop :=
+  (∀ s, s < m.S → st.vf.values.get s = optH m st.timestep s) ∧
+  (0 < st.timestep → st.variation = maxAbsDiff m.S (optH m st.timestep) (optH m (st.timestep - 1)))
+
+theorem viLoop_exact (m : MDP) (rep : Rep) (hrep : RepOK m rep) (hA : 0 < m.A) (hS : 0 < m.S) (tol : Rat) :
+    ∀ (fuel : Nat) (st : VIState), VIShape m st → VIExact m st → VIExact m (viLoop m rep (immRewards m rep) true tol fuel st) := by
+  intro fuel
+  induction fuel with
+  | zero => intro st _ h; exact h
+  | succ fuel ih =>
+    intro st hsh hex
+    by_cases hstop : (true && !(decide (st.variation > tol))) = true
+    · have e : viLoop m rep (immRewards m rep) true tol (fuel+1) st = st := by
+        conv => lhs; unfold viLoop
+        simp only [hstop, if_true]
+      rw [e]; exact hex
+    · have e : viLoop m rep (immRewards m rep) true tol (fuel+1) st
+          = viLoop m rep (immRewards m rep) true tol fuel (viStep m rep (immRewards m rep) true st) := by
+        conv => lhs; unfold viLoop
+        simp only [hstop, Bool.false_eq_true, if_false]
+      rw [e]
+      obtain ⟨hsh', hval, _, _, hts, hvar⟩ := viStep_spec m rep hrep hA true st hsh
+      apply ih _ hsh'
+      have hv' : ∀ s, s < m.S → (viStep m rep (immRewards m rep) true st).vf.values.get s = optH m (st.timestep + 1) s := by
+        intro s hs
+        rw [hval s hs]
+        show _ = bellman m (optH m st.timestep) s
+        exact bellman_congr m hex.1 s
+      constructor
+      · intro s hs; rw [hts]; exact hv' s hs
+      · intro _
+        rw [hvar, hts]
+        simp only [if_true, Nat.add_sub_cancel]
+        exact maxAbsDiff_congr2 m.S _ _ _ _ hv' hex.1 hS
+
+/-- **vi_stops_by_tolerance.**  If γ^(h−2)·‖optH 1‖∞ ≤ tol (h ≥ 2) the tolerance run cannot use all h passes: it stops because the
+    variation fell to the tolerance.  This discharges the `timestep < h` hypothesis of `planners_agree` from (γ, tol, h, Rmax). -/
+theorem vi_stops_by_tolerance (m : MDP) (rep : Rep) (hrep : RepOK m rep) (hA : 0 < m.A) (hS : 0 < m.S) (hγ0 : 0 ≤ m.γ) (hT : ValidT m)
+    (h : Nat) (hh : 2 ≤ h) (tol : Rat) (htol : useTolerance tol = true) (d : Rat)
+    (hd : ∀ s, s < m.S → |optH m 1 s| ≤ d) (hsmall : m.γ ^ (h - 2) * d ≤ tol) :
+    (valueIteration m rep h tol none).timestep < h := by
+  have hsh := makeVF_shape m (makeQ m.S m.A) (tol * 2) 0
+  have hle := (viLoop_values m rep hrep hA true tol h _ hsh).2.1
+  by_contra hcon
+  have hfull : (viLoop m rep (immRewards m rep) true tol h ⟨makeVF m.S, makeQ m.S m.A, tol * 2, 0⟩).timestep = h := by
+    have : (valueIteration m rep h tol none).timestep
+        = (viLoop m rep (immRewards m rep) true tol h ⟨makeVF m.S, makeQ m.S m.A, tol * 2, 0⟩).timestep := by
+      simp only [valueIteration, htol]
+    rw [this] at hcon
+    simp only [Nat.zero_add] at hle
+    omega
+  obtain ⟨k, rfl⟩ : ∃ k, h = k + 1 := ⟨h - 1, by omega⟩
+  rw [viLoop_succ_right] at hfull
+  have hex0 : VIExact m ⟨makeVF m.S, makeQ m.S m.A, tol * 2, 0⟩ :=
+    ⟨fun s _ => by simp [optH, optFrom, makeVF_get], fun h0 => absurd h0 (lt_irrefl 0)⟩
+  have hex := viLoop_exact m rep hrep hA hS tol k _ hsh hex0
+  have hrle := (viLoop_values m rep hrep hA true tol k _ hsh).2.1
+  simp only [Nat.zero_add] at hrle
+  -- the last guarded pass must have run
+  by_cases hstop : (true && !(decide ((viLoop m rep (immRewards m rep) true tol k ⟨makeVF m.S, makeQ m.S m.A, tol * 2, 0⟩).variation > tol))) = true
+  · have e : viLoop m rep (immRewards m rep) true tol 1 (viLoop m rep (immRewards m rep) true tol k ⟨makeVF m.S, makeQ m.S m.A, tol * 2, 0⟩)
+        = viLoop m rep (immRewards m rep) true tol k ⟨makeVF m.S, makeQ m.S m.A, tol * 2, 0⟩ := by
+      conv => lhs; unfold viLoop
+      simp only [hstop, if_true]
+    rw [e] at hfull; omega
+  · have e : (viLoop m rep (immRewards m rep) true tol 1 (viLoop m rep (immRewards m rep) true tol k ⟨makeVF m.S, makeQ m.S m.A, tol * 2, 0⟩)).timestep
+        = (viLoop m rep (immRewards m rep) true tol k ⟨makeVF m.S, makeQ m.S m.A, tol * 2, 0⟩).timestep + 1 := by
+      conv => lhs; unfold viLoop
+      simp only [hstop, Bool.false_eq_true, if_false, viLoop, viStep]
+    rw [e] at hfull
+    have hrt : (viLoop m rep (immRewards m rep) true tol k ⟨makeVF m.S, makeQ m.S m.A, tol * 2, 0⟩).timestep = k := by omega
+    have hgt : tol < (viLoop m rep (immRewards m rep) true tol k ⟨makeVF m.S, makeQ m.S m.A, tol * 2, 0⟩).variation := by
+      simp only [Bool.true_and, Bool.not_eq_true', decide_eq_false_iff_not, not_not] at hstop
+      exact hstop
+    have hk1 : 0 < k := by omega
+    have hvar := hex.2 (by rw [hrt]; exact hk1)
+    rw [hrt] at hvar
+    obtain ⟨s, hs, hatt⟩ := maxAbsDiff_attained m.S hS (optH m k) (optH m (k - 1))
+    have hgeo := optFrom_variation_geometric m hγ0 hT (fun _ => 0) d
+      (fun s hs => by simpa [optFrom, optH] using hd s hs) (k - 1) s hs
+    have e2 : k - 1 + 1 = k := by omega
+    rw [e2] at hgeo
+    have e3 : k + 1 - 2 = k - 1 := by omega
+    rw [e3] at hsmall
+    have : (viLoop m rep (immRewards m rep) true tol k ⟨makeVF m.S, makeQ m.S m.A, tol * 2, 0⟩).variation ≤ tol := by
+      rw [hvar, hatt]; exact le_trans hgeo hsmall
+    linarith
+
+
 /-! ## translator obligation: the statement order / operators the model hard-codes are the ones found in the source now -/
 
 /-- `tools/extract_c01.py` locates (in order) the statements of the VI and PE loops, the LP rows and the argmax loop in the
